@@ -91,6 +91,15 @@ theorem bobocep_no_deadlock (S : Sys) (cls : Lock → Nat) (g : Lock)
     ∀ s, Reachable S s → ¬ Stuck S s :=
   gated_rank_no_deadlock S hb _ g (checkAcqs_sound graph_ranked hconf)
 
+/-- **threads wait only for locks**: the source contains no queue operation that can wait for another
+thread — every `Queue.put` is the nowait form or sits inside a `not full()` guard on the same queue under the
+lock that serialises its producers, and there is no blocking `Queue.get` (the table is generated from every
+call reachable from the thread roles' entry points).  This is the side condition under which `Stuck`
+(every unfinished thread waits for a LOCK) is the only way for bobocep's threads to block each other: a
+blocking `put` on a bounded queue while holding a lock its consumer needs would be a deadlock the lock graph
+does not show. -/
+theorem no_queue_waits : Bobo.Gen.Locks.queueWaits = [] := by decide
+
 /-! ### non-vacuity, and the pinned-tree defect (F6) as a counter-lemma -/
 
 /-- engine-like thread: `with E: with R: with D: …; with P: with R: …` (descends P → R under the gate). -/
